@@ -96,8 +96,11 @@ var pongo2MetaContext = Context{
 func newExecutionContext(tpl *Template, ctx Context) *ExecutionContext {
 	privateCtx := make(Context)
 
-	// Make the pongo2-related funcs/vars available to the context
-	privateCtx["pongo2"] = pongo2MetaContext
+	// Make the pongo2-related funcs/vars available to the context (a copy: a template
+	// can call Context's methods, e.g. pongo2.Update(...), and must not reach the shared map)
+	metaCtx := make(Context, len(pongo2MetaContext))
+	metaCtx.Update(pongo2MetaContext)
+	privateCtx["pongo2"] = metaCtx
 
 	return &ExecutionContext{
 		template: tpl,
